@@ -235,7 +235,7 @@ def run(ctx):
         n = rng.randint(2, 5)
         mx = {2: 9, 3: 6, 4: 5, 5: 4}[n]
         cspec = cases.gen_continuum(rng, n_annot=n, max_units=rng.randint(1, mx), labels=labels or cases.LABELS_SMALL,
-                                    min_total=2)
+                                    min_total=2, p_none=(rng.choice([0.0, 0.3, 1.0]) if labels is None else 0.0))
         arbitrary = rng.random() < 0.2
         if arbitrary:
             # arbitrary doubles far from the origin with short units: not float32-representable, so the reference takes
